@@ -43,8 +43,10 @@ class EnumMetaType(EnumMeta, MetaType):
             if not isinstance(value, int):
                 # value is a parsable value
                 value = cls.type(value)
-            elif isinstance(value, _Enum) and not isinstance(value, cls):
-                # A member of another enum or flag is converted by its integer value
+
+            if isinstance(value, _Enum) and not isinstance(value, cls):
+                # A member of another enum or flag is converted by its integer value (also what the underlying type
+                # has parsed, when that is an enum itself)
                 value = int(value)
 
             return super().__call__(value)
